@@ -54,15 +54,26 @@ pub fn run(path: &str) -> ! {
   let prop = doc.get("property").and_then(|e| e.as_str()).unwrap_or("?");
   let once = || -> String {
     match engine {
+      "c14" if case.get("literal").is_some() => crate::engines::c14::replay_case(&case),
+      // type relations are not re-evaluated case by case: the replay of a C16 case is the whole (one second) check
+      "c16" => {
+        std::env::set_var("VERIF_TIER", "quick");
+        crate::engines::c16::run();
+        String::new()
+      }
       "c01" | "c13" | "c09" | "c10" | "c08" | "c14" | "c15" => crate::engines::c01::replay_case(&case),
       "c06" => crate::engines::c06::replay_case(&case),
+      "c02" => crate::engines::c02::replay_case(&case),
+      "c03" => crate::engines::c03::replay_case(&case),
+      "c05" => crate::engines::c05::replay_case(&case),
+      "c07" => crate::engines::c07::replay_case(&case),
       "dmn" => replay_dmn(&case),
       "c20" => crate::engines::c20::replay_case(&case),
       "c18" => crate::engines::c18::replay_case(&case),
       "c17" => crate::engines::c17::replay_case(&case),
       "c19" => crate::engines::c19::replay_case(&case),
       "c12" => crate::engines::c12::replay_case(&case),
-      other => format!("no replay handler for engine `{}`; the case is: {}", other, case),
+      other => format!("MACHINERY no replay handler for engine `{}`; the case is: {}", other, case),
     }
   };
   let a = once();
@@ -73,6 +84,9 @@ pub fn run(path: &str) -> ! {
   }
   println!("REPLAY property={} key={}", prop, doc.get("key").and_then(|k| k.as_str()).unwrap_or(""));
   println!("{}", a);
+  if a.starts_with("MACHINERY") {
+    std::process::exit(2);
+  }
   let failing = a.starts_with("FAIL");
   if failing {
     println!("VIOLATION property={} replay={}", prop, path);
